@@ -15,6 +15,7 @@ from .types import (
     TInt,
     TList,
     TMap,
+    TOMap,
     TOpt,
     TReal,
     TRec,
@@ -58,6 +59,12 @@ class BuiltinMixin:
     # ---------------- functions ----------------
     def bi_len(self, args, kwargs, node):
         (v,) = args
+        from .omap import View
+
+        if isinstance(v, View):
+            return v.n
+        if isinstance(v, SV) and isinstance(v.ty, TOMap):
+            return v.length()
         if isinstance(v, (tuple, list, str, bytes)):
             return len(v)
         if isinstance(v, PairList):
@@ -170,6 +177,14 @@ class BuiltinMixin:
         if not args:
             return SDict({k: (z3.BoolVal(True), v) for k, v in kwargs.items()})
         v = args[0]
+        from .omap import View
+
+        if isinstance(v, SV) and isinstance(v.ty, TOMap):
+            return v
+        if isinstance(v, View):
+            v = self.list_of_view(v)
+        if isinstance(v, SV) and isinstance(v.ty, TList):
+            return self.omap_from_pairs(v)
         if isinstance(v, SDict):
             return v.copy()
         if isinstance(v, SV) and isinstance(v.ty, TMap):
@@ -199,6 +214,14 @@ class BuiltinMixin:
     def bi_list(self, args, kwargs, node):
         if not args:
             return []
+        from .omap import View
+
+        if isinstance(args[0], SV) and isinstance(args[0].ty, TOMap):
+            return args[0].ty.keys(args[0])
+        if isinstance(args[0], SV) and isinstance(args[0].ty, TList):
+            return args[0]
+        if isinstance(args[0], View):
+            return self.list_of_view(args[0])
         v = self.iterable_view(args[0])
         if isinstance(v, (tuple, list)):
             return list(v)
@@ -224,6 +247,9 @@ class BuiltinMixin:
         vs = [self.iterable_view(a) for a in args]
         if all(isinstance(v, (tuple, list)) for v in vs):
             return [tuple(t) for t in zip(*vs)]
+        views = [self.as_view(v) for v in vs]
+        if all(w is not None for w in views):
+            return self.zip_views(views)
         raise Unsupported("zip over symbolic sequences")
 
     def bi_range(self, args, kwargs, node):
@@ -332,8 +358,12 @@ class BuiltinMixin:
     # ---------------- iteration helpers ----------------
     def iterable_view(self, v):
         """normalise an iterable: concrete list/tuple, or SV Seq/Set/Map"""
-        if isinstance(v, (tuple, list)):
+        from .omap import View
+
+        if isinstance(v, (tuple, list, View)):
             return v
+        if isinstance(v, SV) and isinstance(v.ty, TOMap):
+            return v.ty.keys(v)
         if isinstance(v, _EmptySet):
             return ()
         if isinstance(v, SDict):
@@ -410,6 +440,31 @@ class BuiltinMixin:
                 return self.map_method(selfv, name, args, kwargs, node, self_expr)
             if isinstance(ty, TSeq):
                 return self.seq_method(selfv, name, args, kwargs, node, self_expr)
+            if isinstance(ty, TOMap):
+                if name == "items":
+                    return self.items_view(selfv)
+                if name == "keys":
+                    return ty.keys(selfv)
+                if name == "values":
+                    return self.values_view(selfv)
+                if name == "copy":
+                    return selfv
+                if name == "get":
+                    k = self._elem(args[0], ty.key)
+                    present = self.omap_dom(selfv).contains(k)
+                    default = args[1] if len(args) > 1 else None
+                    if default is None:
+                        o = TOpt(ty.val)
+                        return SV(z3.If(present.t, o.some(ty.at(selfv, k)).t, o.none().t), o)
+                    return SV(z3.If(present.t, ty.at(selfv, k).t, self.coerce(default, ty.val).t), ty.val)
+                if name == "update":
+                    o = args[0]
+                    if isinstance(o, SDict) and not o.items:
+                        return None
+                    if isinstance(o, SV) and o.ty == ty:
+                        self._rebind(self_expr, self.omap_update(selfv, o), node)
+                        return None
+                raise Unsupported(f"dict.{name} on an ordered symbolic dict")
             if isinstance(ty, TList):
                 if name == "append":
                     x = self._elem(args[0], ty.elem)
